@@ -4,9 +4,11 @@ package main
 
 import (
 	"bytes"
+	"context"
 	"encoding/json"
 	"fmt"
 	"strings"
+	"time"
 
 	"os"
 	"path/filepath"
@@ -237,6 +239,7 @@ func c01Handlers(c *ev.Ctx, k c01Case) {
 	var hs []gensign.Handler
 	var stubs []*stubHandler
 	firstAccept := -1
+	slowList := false
 	for i, h := range k.Handlers {
 		switch h {
 		case "A", "R", "Rplain", "Rwrapped", "Rvalue":
@@ -246,6 +249,15 @@ func c01Handlers(c *ev.Ctx, k c01Case) {
 			if h == "A" && firstAccept < 0 {
 				firstAccept = i
 			}
+		case "S", "SR":
+			// a slow handler: its Authenticate answers (accept / reject) only after most of the request's deadline has passed
+			s := &stubHandler{name: fmt.Sprintf("stub%d", i), accept: h == "S", slow: 2600 * time.Millisecond, log: &e.log, script: map[string]string{"Authenticate": "slow"}}
+			stubs = append(stubs, s)
+			hs = append(hs, s)
+			if h == "S" && firstAccept < 0 {
+				firstAccept = i
+			}
+			slowList = true
 		case "P":
 			// a handler whose Authenticate crashes: it has NOT authenticated anybody
 			s := &stubHandler{name: fmt.Sprintf("stub%d", i), accept: true, log: &e.log, script: map[string]string{"Authenticate": "panic"}}
@@ -260,7 +272,15 @@ func c01Handlers(c *ev.Ctx, k c01Case) {
 		}
 	}
 	pre := e.preAdds
-	err, esc := e.run(defaultParams("alice"), hs)
+	ctx := context.Background()
+	if slowList {
+		// the request carries a deadline (as the real front end's does); whoever answers late, a certificate is signed only
+		// for a handler whose OWN Authenticate returned success
+		var cancel context.CancelFunc
+		ctx, cancel = context.WithTimeout(ctx, 4*time.Second)
+		defer cancel()
+	}
+	err, esc := e.runCtx(ctx, defaultParams("alice"), hs)
 	if esc != "" {
 		c.Violation("C01:panic-escaped:"+ev.PanicSite(esc), esc, k)
 		return
@@ -303,6 +323,20 @@ func c01Handlers(c *ev.Ctx, k c01Case) {
 		for i, s := range stubs {
 			if s != nil && s.GenCalls > 0 {
 				c.Violation("C01:handlers:generate-without-auth", fmt.Sprintf("Generate was called on handler %d although nothing authenticated", i), k)
+			}
+		}
+		return
+	}
+	if err != nil && slowList {
+		// an implementation may give up on a handler that takes most of the request's deadline; the statement only
+		// demands that nothing is then generated, signed or added
+		c.Outcome("handlers/slow/gave-up/" + errType(err))
+		if len(e.ca.Reqs) != 0 || adds != 0 {
+			c.Violation("C01:handlers:none-accepts-but-signed", fmt.Sprintf("the run failed (%s), yet CA calls=%d agent adds=%d", errType(err), len(e.ca.Reqs), adds), k)
+		}
+		for i, s := range stubs {
+			if s != nil && s.GenCalls > 0 {
+				c.Violation("C01:handlers:generate-without-auth", fmt.Sprintf("Generate was called on handler %d although the run failed", i), k)
 			}
 		}
 		return
@@ -402,7 +436,7 @@ func c01Rotation(c *ev.Ctx, k c01Case) {
 
 func checkC01(c *ev.Ctx) {
 	defer cleanupScratch()
-	c.Rule("real gensign.Run + regular.Handler (built by NewHandler from a JSON config) over a scripted forwarded agent and a recording CA: single runs = full product login{alice,bob,ünï} x policy{NONS,NSOK} x hard-key x params{set,nil,without client attributes} x client claim{self,mallory} x key directory{none,.pub,bare,both,unparsable,other user,directory,another user's key; near-miss file names of other users (other case, prefix, suffix, stray dot/space) for 5 login names} x agent{honest with key, without, signs with another key, signs other data, garbage, empty, failure, close}; handler lists = every list of length 0..3 over {accepting stub, rejecting stub (typed error; in the first two positions also plain, wrapped and by-value errors), stub whose Authenticate crashes, real handler} x real handler ok/not; run sequences of length 2 (thorough 3) over {honest, replay, other data, failure}, and key-rotation sequences (registered key file replaced in place between runs; old key must be refused by the long-lived and by a fresh handler, new key accepted). Oracle: independent proof-of-possession predicate; challenge = bytes drawn from the csprng seam in this run. non-trivial = run with a valid proof of possession or a handler list; distinct by case")
+	c.Rule("real gensign.Run + regular.Handler (built by NewHandler from a JSON config) over a scripted forwarded agent and a recording CA: single runs = full product login{alice,bob,ünï} x policy{NONS,NSOK} x hard-key x params{set,nil,without client attributes} x client claim{self,mallory} x key directory{none,.pub,bare,both,unparsable,other user,directory,another user's key; near-miss file names of other users (other case, prefix, suffix, stray dot/space) for 5 login names} x agent{honest with key, without, signs with another key, signs other data, garbage, empty, failure, close}; handler lists = every list of length 0..3 over {accepting stub, rejecting stub (typed error; in the first two positions also plain, wrapped and by-value errors), stub whose Authenticate crashes, real handler} x real handler ok/not, plus 7 lists with one or two handlers each of which answers only after 2.6 s of a 4 s request deadline (real time); run sequences of length 2 (thorough 3) over {honest, replay, other data, failure}, and key-rotation sequences (registered key file replaced in place between runs; old key must be refused by the long-lived and by a fresh handler, new key accepted). Oracle: independent proof-of-possession predicate; challenge = bytes drawn from the csprng seam in this run. non-trivial = run with a valid proof of possession or a handler list; distinct by case")
 	c.Assume("statistical quality of the OS CSPRNG is trusted; 'fresh' is decided as 'the 64 bytes drawn from crypto/rand during this Authenticate call'", "key files are looked up as '<name>.pub' then '<name>' (documented order)")
 	if c.ReplayCase != nil {
 		var k c01Case
@@ -496,7 +530,13 @@ func checkC01(c *ev.Ctx) {
 			c01Handlers(c, c01Case{Kind: "handlers", Handlers: l, RealOK: ok})
 		}
 	}
-	c.Set("handler_lists", len(lists)*2)
+	// slow handlers under a request deadline of 4 s (each answers after 2.6 s): the late answer of one handler is that
+	// handler's answer
+	slow := [][]string{{"S", "R"}, {"S", "SR"}, {"SR", "A"}, {"R", "S", "SR"}, {"S", "real"}, {"SR", "R"}, {"S", "SR", "A"}}
+	for _, l := range slow {
+		c01Handlers(c, c01Case{Kind: "handlers", Handlers: l, RealOK: false})
+	}
+	c.Set("handler_lists", len(lists)*2+len(slow))
 	c.Sample(c01Case{Kind: "handlers", Handlers: []string{"R", "real", "A"}, RealOK: true})
 	// run sequences
 	beh := []string{"honest-with-key", "replay", "sign-other-data", "failure"}
